@@ -7,7 +7,7 @@ From Coq Require Import ExtrOcamlBasic.
 From HV Require Import Model.Big Model.Rat Model.NumText Model.Chars Model.Parse Spec.Grammar Model.Exec Spec.Lang Model.Opt Model.Repl Model.Debug Model.Utf8 Model.Cli Model.Compile.
 Extraction "model.ml"
   Big.from_vec Big.bminus Big.bneg Big.badd Big.bsub Big.bmul Big.bdiv Big.brem Big.bgcd Big.beq Big.bcmp
-  Big.bnew Big.new_pre_fix Big.is_zero Big.to_int Big.wfb Big.bval
+  Big.lval Big.bone Big.bnew Big.new_pre_fix Big.is_zero Big.to_int Big.wfb Big.bval
   Rat.nan Rat.from_num Rat.from_big_num Rat.nnew Rat.nminus Rat.nneg Rat.nflip Rat.nadd Rat.nmul Rat.floor
   Rat.neq Rat.ncmp Rat.ncmp_pre_fix Rat.is_nan Rat.is_pos Rat.optimize_pre_fix Rat.wfnb
   NumText.to_string_base NumText.from_string_base NumText.big_display NumText.num_display
